@@ -175,6 +175,35 @@ def family_of(lab, dw, touch):
     return "main"
 
 
+MPO_GATES = ("PauliRot", "MultiRZ")  # applied by default.tensor as a matrix product operator, not through apply_gate
+
+
+def _main_signature(kind, word, meas, lab, dwp, f):
+    """Signature of a failure of device `kind` in a main-family configuration (Identity layer on every device wire)."""
+    wires = [lab[i] for i in dwp]
+    pre = [["Identity", [p], []] for p in dwp]
+    letters = pre + list(word)
+    cls, m = f[0], f[1]
+    if cls == "raised":  # which measurement raises on its own?
+        m = next((mm for mm in meas if (_fails(kind, letters, [mm], lab, wires) or [None])[0] == "raised"), None)
+    mname = m[0] if m is not None else "+".join(x[0] for x in meas)
+    if kind in ("mps", "tn") and any(l[0] in MPO_GATES for l in word):
+        return f"main:{kind}:{cls}:mpo-gate:meas={mname}", m
+    mm = [m] if m is not None else meas
+    after = None  # first prefix on which this device already fails with the failing measurement
+    for k in range(len(pre), len(letters) + 1):
+        if _fails(kind, letters[:k], mm, lab, wires) is not None:
+            after = None if k == len(pre) else letters[k - 1]
+            break
+    if after is None:
+        return f"main:{kind}:{cls}:meas={_mk(m) if m is not None else mname}", m
+    b = X.letter_batch(after)
+    opn = after[0] + ("" if b is None else f"(batch{b})")
+    # state() still agrees on the full circuit -> the measurement is at fault, otherwise the operation
+    state_ok = mm != [["state"]] and _fails(kind, letters, [["state"]], lab, wires) is None
+    return f"main:{kind}:{cls}:" + (f"meas={mname}" if state_ok else f"op={opn}"), m
+
+
 def check(spec):
     kinds, word, meas, lab, dw = spec["devs"], spec["word"], spec["meas"], spec["lab"], spec["dw"]
     touch = spec.get("touch", True)
@@ -182,12 +211,12 @@ def check(spec):
     n = 4 if 3 in used else 3
     dwp = list(dw) + ([3] if n == 4 else [])
     wires = [lab[i] for i in dwp]
-    fam = family_of(lab, dwp, touch)
     pre = [["Identity", [p], []] for p in dwp] if touch else []
     letters = pre + list(word)
     B, consistent = X.circuit_batch(letters)
     if not consistent:
         return skip("inconsistent broadcast sizes")
+    nat = list(range(n))
     with warnings.catch_warnings():
         warnings.simplefilter("ignore")
         ref = _leaves(_run("dq", letters, meas, lab, wires), len(meas))
@@ -195,28 +224,22 @@ def check(spec):
             f = _fails(kind, letters, meas, lab, wires)
             if f is None:
                 continue
-            cls, m = f[0], f[1]
-            if cls == "raised":  # which measurement raises on its own?
-                m = next((mm for mm in meas if (_fails(kind, letters, [mm], lab, wires) or [None])[0] == "raised"), None)
-            mname = m[0] if m is not None else "+".join(x[0] for x in meas)
             exp = f[3] if f[0] != "raised" else "same results as default.qubit"
-            extra = {"measurement": m, "gates": [X.letter_code(l) for l in word], "batch": B}
+            extra = {"gates": [X.letter_code(l) for l in word], "batch": B}
+            fam = family_of(lab, dwp, touch)
             if fam != "main":
-                return bad(f"{fam}:{kind}:{cls}:meas={mname}", f[2], exp, **extra)
-            mm = [m] if m is not None else meas
-            after = None  # first prefix on which this device already fails with the failing measurement
-            for k in range(len(pre), len(letters) + 1):
-                if _fails(kind, letters[:k], mm, lab, wires) is not None:
-                    after = None if k == len(pre) else letters[k - 1]
-                    break
-            if after is None:
-                where = f"meas={_mk(m) if m is not None else mname}"
-            else:
-                b = X.letter_batch(after)
-                opn = after[0] + ("" if b is None else f"(batch{b})")
-                state_ok = mm != [["state"]] and _fails(kind, letters, [["state"]], lab, wires) is None
-                where = f"meas={mname}:after={opn}" if state_ok else f"op={opn}"
-            return bad(f"main:{kind}:{cls}:{where}", f[2], exp, **extra)
+                # does the same circuit already fail in the canonical main configuration (natural labels and order)?
+                f0 = _fails(kind, [["Identity", [p], []] for p in nat] + list(word), meas, LABS[0], nat)
+                if f0 is not None:
+                    sig, m = _main_signature(kind, word, meas, LABS[0], nat, f0)
+                    return bad(sig, f[2], exp, measurement=m, seen_in_family=fam, **extra)
+                m = f[1]
+                if f[0] == "raised":
+                    m = next((mm for mm in meas if (_fails(kind, letters, [mm], lab, wires) or [None])[0] == "raised"), None)
+                mname = m[0] if m is not None else "+".join(x[0] for x in meas)
+                return bad(f"{fam}:{kind}:{f[0]}:meas={mname}", f[2], exp, measurement=m, **extra)
+            sig, m = _main_signature(kind, word, meas, lab, dwp, f)
+            return bad(sig, f[2], exp, measurement=m, **extra)
     return ok(outcome=[kinds, X.fingerprint(ref), B], nontrivial=bool(word))
 
 
@@ -230,10 +253,9 @@ def run(ctx):
         devs = [k for k in pool if _supported(k, ml) and all((l in COMMON or l in CLIFFORD or l in EXTRA[k]) for l in w)]
         if ctx.only:
             devs = [k for k in devs if k == ctx.only]
-        if devs:
-            specs.append({"devs": devs, "word": w, "lab": lab, "dw": dw, "meas": ml, "touch": touch})
-            for k in devs:
-                count[k] = count.get(k, 0) + 1
+        for k in devs:  # one spec per device: a failure on one device must not hide another device's
+            specs.append({"devs": [k], "word": w, "lab": lab, "dw": dw, "meas": ml, "touch": touch})
+            count[k] = count.get(k, 0) + 1
 
     allm = SUPPORT["mixed"][0]
     singles = [[m] for m in allm]
@@ -252,14 +274,15 @@ def run(ctx):
             if len(w) <= 1:  # includes the `perm` family: (LABS[1], DEVW[0]) and (LABS[0], DEVW[1])
                 combos = [(lab, dw) for lab in LABS for dw in DEVW]
             elif len(w) == 2:
-                combos = [(LABS[3], dw) for dw in DEVW] + ([] if quick else [(LABS[0], DEVW[0]), (LABS[2], DEVW[1])])
+                combos = [(LABS[3], DEVW[1])] + ([] if quick else [(LABS[3], DEVW[0]), (LABS[0], DEVW[0]), (LABS[2], DEVW[1])])
             else:
                 combos = [(LABS[3], DEVW[1])]
             for lab, dw in combos:
                 for ml in singles:
                     add(w, lab, dw, ml, pool)
-            for ml in pairs:
-                add(w, LABS[3], DEVW[1], ml, pool)
+            if len(w) <= 1 or not quick:
+                for ml in pairs:
+                    add(w, LABS[3], DEVW[1], ml, pool)
             if len(w) <= 1:  # idle family: no Identity layer, some device / measured wires carry no operation
                 for ml in singles:
                     add(w, LABS[0], DEVW[0], ml, pool, touch=False)
